@@ -9,6 +9,7 @@
 //  peakloc.real                     vertex of the parabola through the three samples around idx (cyclic neighbours)
 //  detector.present / .absent       PreambleDetector against the documented formula evaluated in long double
 //  detector.reset                   histories on one object: traffic, reset(), stream - the stream is handled as by a fresh detector
+//  detector.reject                  a call with a length that is not a multiple of frame_len() throws and leaves the object unchanged
 //
 // Shifts of complex data are made by the harness itself (own zero-fill shift), real shifts are made by the harness as
 // well and delayseq() is compared with them bit-exactly in the same case, so a delayseq defect is not reported as a
@@ -365,7 +366,7 @@ static void run_detector(Ctx& ctx, bool T) {
     const double thrs[] = {0.3, 0.5, 0.7, 0.9};
     const int NFR = 4;
     for (const Preamble& pr : pre) {
-        if (!ctx.wants("detector.present") && !ctx.wants("detector.absent") && !ctx.wants("detector.reset")) break;
+        if (!ctx.wants("detector.present") && !ctx.wants("detector.absent") && !ctx.wants("detector.reset") && !ctx.wants("detector.reject")) break;
         const int nh = pr.h.size();
         int fl = 0;
         double rms_h = 0;
@@ -407,7 +408,8 @@ static void run_detector(Ctx& ctx, bool T) {
 
         // runs one detector over the stream, fpc frames per call; e < 0: nothing expected
         // `history` (optional) is applied to the detector object before the stream: earlier traffic followed by reset()
-        using History = std::function<void(PreambleDetector&, int /*fpc*/)>;
+        // it is invoked before every call c of the stream (c = 0: before the stream starts)
+        using History = std::function<void(PreambleDetector&, int /*fpc*/, int /*call*/)>;
         auto run_one = [&](const arr_cmplx& s, const DetRef& R, double thr, int fpc, int e, const char* site, const History& history = History()) {
             // decide whether the documented statistic gives an unambiguous expectation
             bool near = false, other = false;
@@ -423,18 +425,18 @@ static void run_detector(Ctx& ctx, bool T) {
                                   : (e >= 0 ? "reference crosses threshold away from the preamble end" : "reference crosses threshold without preamble")));
                 return;
             }
-            ctx.note(fmt("detector config checked thr=%.1f (%s%s)", thr, e >= 0 ? "preamble present" : "no preamble", history ? ", after history + reset()" : ""));
+            ctx.note(fmt("detector config checked thr=%.1f (%s%s)", thr, e >= 0 ? "preamble present" : "no preamble", history ? ", with history" : ""));
             PreambleDetector det(pr.h, thr);
             if (det.frame_len() != fl) {
                 ctx.fail(site, fmt("frame_len()=%d", det.frame_len()), fmt("%d as for the probe object", fl), P().kv("kind", "setup"));
                 return;
             }
-            if (history) history(det, fpc);
             const int blk = fpc * fl;
             const int ce = e >= 0 ? e / blk : -1;
             for (int c = 0; c < NFR / fpc; ++c) {
                 arr_cmplx frame(blk);
                 for (int i = 0; i < blk; ++i) frame[i] = s[c * blk + i];
+                if (history) history(det, fpc, c);
                 auto r = det.process(frame);
                 P dt;
                 dt.kv("thr", thr).kv("fpc", fpc).kv("call", c);
@@ -553,13 +555,77 @@ static void run_detector(Ctx& ctx, bool T) {
                                 s1 = make_stream(embed, A, fl - nh / 2);
                                 nfr1 = 1;
                             }
-                            History h = [&](PreambleDetector& det, int fpc) {
+                            History h = [&](PreambleDetector& det, int fpc, int call) {
+                                if (call != 0) return;
                                 if (nfr1 > 0) feed(det, s1, nfr1, fpc);
                                 det.reset();
                             };
                             for (double thr : thrs)
                                 for (int fpc : {1, 2}) run_one(s, R, thr, fpc, e, "PreambleDetector.reset", h);
                             GUARD_END("PreambleDetector.reset")
+                        }
+                    }
+                }
+            }
+        }
+        // ---- rejected calls: process() documents "length of sig must be a multiple of frame_len()" and throws otherwise.  A call
+        // that is rejected must leave the object unchanged: the valid frames around it are handled exactly as by a detector
+        // that never saw it.  One rejected call of L_bad samples of noise at the preamble's power is placed a = before the
+        // stream, b = after the first call, c = right before the call in which the preamble completes (preamble ends in frame 2).
+        {
+            std::vector<int> roffs;
+            if (T) roffs = det_offsets(fl, nh, false);
+            else {
+                std::set<int> so;
+                for (int v : {0, nh / 2, nh - 1, fl - 1})
+                    if (v >= 0 && v < fl) so.insert(v);
+                roffs.assign(so.begin(), so.end());
+            }
+            const char* PL[3] = {"a", "b", "c"};
+            const int lbads[4] = {1, 5, fl - 1, fl + 1};
+            for (int off : roffs) {
+                for (int place = 0; place < 3; ++place) {
+                    for (int li = 0; li < 4; ++li) {
+                        for (int embed = 0; embed < 2; ++embed) {
+                            for (double A : amps) {
+                                const int lbad = lbads[li];
+                                if (!ctx.take("detector.reject", P().kv("preamble", pr.name).kv("place", PL[place]).kv("lbad", lbad).kv("off", off).kv("floor", embed).kv("amp", A))) continue;
+                                GUARD_BEGIN
+                                if (lbad < 1 || lbad % fl == 0) {
+                                    ctx.note("detector.reject: L_bad is a multiple of frame_len, skipped");
+                                    continue;
+                                }
+                                const int e = 2 * fl + off;
+                                const int start = e - nh + 1;
+                                arr_cmplx s = make_stream(embed, A, start);
+                                DetRef R = det_reference(pr.h, s, rms_h);
+                                ctx.nontrivial();
+                                ctx.note(std::string("detector rejected call placed ") + PL[place]);
+                                arr_cmplx bad(lbad);
+                                const double g = A * (double)rms_true / std::sqrt(2.0);   // noise power = preamble power
+                                for (int k = 0; k < lbad; ++k) bad[k] = cmplx_t{g * lcg_gauss(164, (uint64_t)k), g * lcg_gauss(165, (uint64_t)k)};
+                                for (double thr : thrs)
+                                    for (int fpc : {1, 2}) {
+                                        const int ce = e / (fpc * fl);
+                                        const int at = place == 0 ? 0 : (place == 1 ? 1 : ce);
+                                        History h = [&](PreambleDetector& det, int, int call) {
+                                            if (call != at) return;
+                                            bool threw = false;
+                                            try {
+                                                (void)det.process(bad);
+                                            } catch (const std::exception&) {
+                                                threw = true;
+                                            }
+                                            if (!threw)
+                                                ctx.fail("PreambleDetector.process", fmt("call with %d samples (frame_len %d) returned", lbad, fl),
+                                                         "throws: length is not a multiple of frame_len()", P().kv("kind", "bad_length_accepted").kv("thr", thr).kv("fpc", fpc));
+                                            else
+                                                ctx.note("detector rejected call threw");
+                                        };
+                                        run_one(s, R, thr, fpc, e, "PreambleDetector.process.after_reject", h);
+                                    }
+                                GUARD_END("PreambleDetector.process.after_reject")
+                            }
                         }
                     }
                 }
